@@ -93,6 +93,30 @@ claimed["C01"] = dict(
    ref="DESIGN.md 5/C01, engine E2",
    technique="static sibling-agreement cross-check: dominance, data-dependence classification of hash inputs and guard rules on go/ssa (custom analyzer)")
 
+
+claimed["C14"] = dict(
+   text="An order-class abstract interpretation of the proof-algebra entries (and of the consumers of their results) decides, for all inputs, the clause 'targets and "
+        "hashes given in any parallel order': at every site that combines positions with hashes index by index both operands are in the same order class (caller order, "
+        "sorted copy, canonical proof order of the same group); no slice still in a caller-chosen order reaches a function that requires sorted input; proof restriction "
+        "succeeds only behind the coverage test and returns hashes and targets in request order. Canonicity/exactness of the combined or restricted proof and of the "
+        "missing positions (position arithmetic) are not decided.",
+   ref="DESIGN.md 5/C14, engine E7",
+   technique="static order-class dataflow: flow- and context-sensitive abstract interpretation over go/ssa with in-place-sort tracking; pairing, taint-to-sink and output-contract rules (custom analyzer)")
+claimed["C05"] = dict(
+   text="Static rules decide the clause 'for every accepted encoding - any target order, trailing unused proof hashes': the caller's target order never reaches a "
+        "requires-sorted function and hashes are paired with targets only in the same order class, in verification, block application and undo of all three "
+        "implementations; neither forest's Modify reads the proof hashes anywhere in its call closure (sufficient for independence from junk or non-canonical proof "
+        "hashes); all three implementations delete before they add. Equality of the resulting roots with each other and with the reference is not decided.",
+   ref="DESIGN.md 5/C05, engines E7+E2",
+   technique="static order-class dataflow (taint to requires-sorted sinks, pairing classes), field-read scan over the call closure, dominance (custom analyzer)")
+claimed["C02"] = dict(
+   text="Thin claim on both provers, decided for all inputs: the returned targets are filled index by index from the requested hashes (request order); the returned proof "
+        "hashes are filled in the order of the proof positions computed from a sorted copy of those same targets (canonical order); the request order never reaches the "
+        "proof-position function; a hash that cannot be read yields an error, never a proof with a hole. That positions are true, that the proof verifies everywhere and "
+        "that the two provers agree are not decided.",
+   ref="DESIGN.md 5/C02, engines E7+E2",
+   technique="static order-class dataflow with map-fill idiom recognition and output contracts; guard rule on fetch sites (custom analyzer)")
+
 pending = {}  # id -> reason, for properties whose check is not built yet
 
 not_applicable = {
